@@ -189,7 +189,9 @@ def r1(ctx):
             if kind == "str":
                 enc = [c for c in calls_named(wfi, "encode")]
                 dec = [c for c in calls_named(rfi, "decode")]
-                ok = len(enc) == 1 and len(dec) == 1 and norm(enc[0].args[0]) == norm(dec[0].args[0]) and norm(wr[1].args[0]) == norm(enc[0]._parent.targets[0])
+                # (strict on both sides: an error handler on one side - errors="replace" / "ignore" - writes or reads a different string without refusing)
+                ok = len(enc) == 1 and len(dec) == 1 and len(enc[0].args) == 1 and len(dec[0].args) == 1 and not enc[0].keywords and not dec[0].keywords \
+                    and norm(enc[0].args[0]) == norm(dec[0].args[0]) and norm(wr[1].args[0]) == norm(enc[0]._parent.targets[0])
                 ctx.check(ok, "C13.R1", wfi, "string codec agrees (utf-8) and the encoded bytes are what is written", witness=[norm(c) for c in enc + dec])
         elif kind in ("map", "seq", "set"):
             vp = wfi.params[1]
